@@ -13,9 +13,10 @@ from . import common as C
 from . import oracles
 from .opt import OptCase, parse_replay, scale_of
 
-DELTA_REL = Fraction(1, 10 ** 9)      # acceptance budget relative to the largest initial norm
-TINY_REL = Fraction(1, 10 ** 6)       # residuals below this (relative) but non-zero: trace truncated
-NORM_TOL = 1e-8                       # tapped float norms vs exact norms (relative to scale)
+# Numerical budget (see DESIGN.md §3).  The float code computes residual norms by Householder elimination; their
+# error is about n·eps·scale amplified by scale/ρ_min, ρ_min the smallest non-zero pivot residual so far (conditioning
+# of the eliminated block).  Budget of step j:  BUDGET_REL · max(scale · max(1, scale/ρ_min(j)), max|cost|).
+BUDGET_REL = Fraction(1, 10 ** 12)    # ≈ 4500 eps
 
 
 class Judgment:
@@ -29,77 +30,115 @@ class Judgment:
         self.mask_mismatch = None     # (step, real zeros, model zeros)  (GQR)
         self.all_uniq = True
         self.domain = True
-        self.delta = None
+        self.delta = None             # budget of the last judged / rejected step
+        self.deltas = None            # budget per step
 
 
 def mask_sets_for(case: OptCase, res, verdicts):
     return None
 
 
-def judge_batch(ctx, items):
-    """items: list of (case, res) with res['offsets'] present. Returns list[Judgment]."""
-    reqs = []
-    deltas = []
-    for case, res in items:
-        sc = scale_of(case.B)
-        # the float code forms `norm - cost`: its rounding is relative to the larger of the two magnitudes
-        cmax = Fraction(0)
-        if case.kind == "ccqr" and case.costs is not None and len(case.costs):
-            cmax = max(abs(C.frac(c)) for c in case.costs.tolist())
-        delta = DELTA_REL * max(sc, cmax)
-        deltas.append((delta, sc))
-        reqs.append(case.req_replay(res["offsets"], delta, verbose=True))
-    resp = ctx.driver.ask(reqs)
+def _sqrt_upper(x: Fraction) -> Fraction:
+    """a rational ≥ √x, tight to 2^-40 relative"""
+    lo, hi = oracles.sqrt_bounds(x, 60)
+    return hi
+
+
+def _sqrt_lower(x: Fraction) -> Fraction:
+    lo, hi = oracles.sqrt_bounds(x, 60)
+    return lo
+
+
+def budgets_for(case: OptCase, chosen_n2):
+    """per-step budgets from the exact residuals of the pivots chosen so far"""
+    sc = scale_of(case.B)
+    cmax = Fraction(0)
+    if case.kind == "ccqr" and case.costs is not None and len(case.costs):
+        cmax = max(abs(C.frac(c)) for c in case.costs.tolist())
     out = []
-    for (case, res), rp, (delta, sc) in zip(items, resp, deltas):
-        J = Judgment()
-        J.delta = delta
+    rho_min = None
+    for n2 in chosen_n2:
+        amp = Fraction(1) if rho_min is None else max(Fraction(1), sc / rho_min)
+        out.append(BUDGET_REL * max(sc * amp, cmax))
+        if n2 is not None and n2 > 0:
+            r = _sqrt_lower(n2)
+            if r > 0 and (rho_min is None or r < rho_min):
+                rho_min = r
+    return out, sc
+
+
+def judge_batch(ctx, items):
+    """items: list of (case, res) with res['offsets'] present. Returns list[Judgment].
+    Two passes through the Lean model: the first yields the exact residual of every chosen pivot (which fixes the
+    budget of every later step), the second judges each step with its own budget."""
+    first = ctx.driver.ask([case.req_replay(res["offsets"], [0], verbose=False) for case, res in items])
+    reqs, metas = [], []
+    for (case, res), rp in zip(items, first):
         if rp == "domain":
-            J.domain = False
-            out.append(J)
+            reqs.append(None); metas.append(None)
             continue
         p, vs = parse_replay(rp)
         if p is None:
             raise C.HarnessError(f"driver: {rp[:200]}")
+        deltas, sc = budgets_for(case, [v["n2"] if not v["masked"] else None for v in vs])
+        metas.append((deltas, sc))
+        reqs.append(case.req_replay(res["offsets"], deltas or [0], verbose=True))
+    resp = iter(ctx.driver.ask([r for r in reqs if r is not None]))
+    out = []
+    for (case, res), rq, meta in zip(items, reqs, metas):
+        J = Judgment()
+        if rq is None:
+            J.domain = False
+            out.append(J)
+            continue
+        rp = next(resp)
+        deltas, sc = meta
+        J.deltas = deltas
+        J.delta = deltas[0] if deltas else Fraction(0)
+        p, vs = parse_replay(rp)
+        if p is None:
+            raise C.HarnessError(f"driver: {rp[:200]}")
         J.model_p, J.verdicts = p, vs
-        tiny2 = (TINY_REL * sc) ** 2
         dl = res.get("dlens")
-        zeros = res.get("zeros")
         for j, v in enumerate(vs):
+            dj = deltas[j] if j < len(deltas) else deltas[-1]
+            noise = dj >= sc            # budget as large as the matrix itself: nothing can be judged any more
             # tapped float norms against the exact ones (before judging the pick)
-            if dl is not None and J.norm_mismatch is None and J.truncated_at is None:
+            if dl is not None and J.norm_mismatch is None and J.truncated_at is None and not noise:
                 ex = v.get("cand_n2", [])
                 fl = dl[j]
                 if len(ex) != len(fl):
                     J.norm_mismatch = (j, -1, len(fl), len(ex))
                 else:
+                    tol = float(dj)
                     for pos, (f, e) in enumerate(zip(fl, ex)):
-                        if not math.isfinite(f) or abs(f - math.sqrt(float(e))) > NORM_TOL * float(sc):
+                        if not math.isfinite(f) or abs(f - math.sqrt(float(e))) > tol + 1e-15 * abs(f):
                             J.norm_mismatch = (j, pos, f, float(e) ** 0.5)
                             break
             if not v["uniq"]:
                 J.all_uniq = False
             if J.truncated_at is None:
+                if noise:
+                    J.truncated_at = j
+                    continue
                 J.judged += 1
                 if not v["ok"] and J.rejected_step is None:
                     J.rejected_step = j
-                # truncation: the float code divides by a float residual that exact arithmetic says is
-                # (nearly) zero – the direction it removes is rounding noise, the exact model removes none.
+                    J.delta = dj
                 n2 = v["n2"]
                 fl_ch = None
                 if dl is not None:
                     off = res["offsets"][j]
                     fl_ch = dl[j][off] if off < len(dl[j]) else None
-                if n2 != 0 and n2 < tiny2:
-                    J.truncated_at = j
-                elif n2 == 0 and not v["masked"]:
+                if n2 == 0 and not v["masked"]:
+                    # exact residual zero: the model eliminates nothing; the float code eliminates rounding noise
+                    # unless its residual is exactly 0.0 too – unjudgeable from here unless everything is zero
                     if fl_ch is None or fl_ch != 0.0:
-                        # float residual unknown or non-zero noise: unjudgeable from here unless everything is zero
                         if any(x != 0 for x in v.get("cand_n2", [1])):
                             J.truncated_at = j
                 elif v["masked"]:
-                    # a masked candidate was chosen (infeasible request): the code takes its zero-norm branch
-                    # although the column is not zero – outside every property's feasibility clause
+                    # a masked candidate was chosen (infeasible request): the code takes its zero-norm branch although the
+                    # column is not zero – outside every property's feasibility clause
                     J.truncated_at = j
         out.append(J)
     return out
